@@ -1835,6 +1835,10 @@ class Tensor:
 
         del placeholder_mutant_view
 
+        # The base keeps its own constant-flag; it is not to be inferred from
+        # the (possibly differently-flagged) view that was the in-place target
+        mutant_base._constant = graph.base.placeholder._constant
+
         # The original base now points to the augmented array data
         # and has the InPlaceOp as its creator
         _dup.mirror_tensor(source=mutant_base, target=graph.base.tensor)
